@@ -22,7 +22,11 @@ WrapStatus(a) == IF a \in {"action", "action_noresult"} THEN 400 ELSE 500
 ErrFields == {"status", "message", "code", "serviceErrorCode", "exceptionClass", "details"}
 \* "wrapped": an ordinary error that merely WRAPS an error response (fmt.Errorf("...: %w", errResp)) -- it is not itself an error
 \* response, so it is reported like any other error
-Outcomes == {[k |-> "value"], [k |-> "override"], [k |-> "nil"], [k |-> "error"], [k |-> "wrapped"], [k |-> "panic"]}
+\* "created200" / "created202": the implementation of a create chooses the status itself, in the entity it returns (200: the
+\* entity existed already -- the lowest success status, right below the default 201)
+CreatedStatus(o) == IF o.k = "created200" THEN 200 ELSE 202
+Outcomes == {[k |-> "value"], [k |-> "override"], [k |-> "nil"], [k |-> "error"], [k |-> "wrapped"], [k |-> "panic"],
+             [k |-> "created200"], [k |-> "created202"]}
             \cup {[k |-> "errresp", f |-> fs] : fs \in ErrFieldSets}
 ErrStatus == 418       \* the status a resource sets in its error response
 Unset == -1
@@ -33,6 +37,7 @@ vars == <<adapter, outcome, held, pc, wrapped, http, client>>
 Init == /\ adapter \in Adapters
         /\ outcome \in Outcomes
         /\ (outcome.k = "nil" => HasBody(adapter))        \* only adapters that return an entity can return a nil one
+        /\ (outcome.k \in {"created200", "created202"} => adapter \in {"create", "create_ret"})
         /\ held = {} /\ pc = "invoke" /\ wrapped = <<>> /\ http = <<>> /\ client = <<>>
 
 \* the resource implementation runs; for an error response it keeps the object (set of fields it filled in)
@@ -47,6 +52,7 @@ Wrap == /\ pc = "wrap"
         /\ wrapped' =
              CASE outcome.k = "value"    -> [k |-> "ok", status |-> DefaultStatus(adapter)]
                [] outcome.k = "override" -> [k |-> "ok", status |-> 202]
+               [] outcome.k \in {"created200", "created202"} -> [k |-> "ok", status |-> CreatedStatus(outcome)]
                [] outcome.k = "errresp"  -> [k |-> "err", status |-> IF "status" \in outcome.f THEN ErrStatus ELSE Unset,
                                              fields |-> outcome.f, msg |-> "resource"]
                [] outcome.k \in {"error", "wrapped"} -> [k |-> "err", status |-> WrapStatus(adapter), fields |-> {"status", "message"}, msg |-> "wrapped"]
@@ -88,6 +94,7 @@ ErrorsArriveFaithfully ==
            /\ Failure(http.status) /\ http.errhdr /\ client.k = "resterr" /\ "message" \in client.fields
       [] outcome.k = "value" -> /\ http.status = DefaultStatus(adapter) /\ ~http.errhdr /\ client.k = "value"
       [] outcome.k = "override" -> /\ http.status = 202 /\ ~http.errhdr /\ client.k = "value"
+      [] outcome.k \in {"created200", "created202"} -> /\ http.status = CreatedStatus(outcome) /\ ~http.errhdr /\ client.k = "value"
 
 \* error objects returned by resource code are never modified
 ErrorObjectUnmodified == [][pc # "invoke" => held' = held]_vars
